@@ -70,6 +70,8 @@ def _worker_run(case):
     spec = _W["spec"]
     t0 = time.time()
     try:
+        from mir2smt import terms as _T
+        _T._fresh[0] = 0          # deterministic symbol names per case
         r = spec.run_case(ctx, case)
     except Exception as e:
         from mir2smt.exec import Unsupported
@@ -194,6 +196,12 @@ def run_check(pid, tier, seed, jobs=16, only=None):
             v["case"] = r["case"]
             violations.append(v)
 
+    try:
+        os.makedirs(os.path.join(VERIF, "build"), exist_ok=True)
+        with open(os.path.join(VERIF, "build", "last-%s-violations.json" % pid), "w") as f:
+            json.dump(violations, f, indent=0, default=str)
+    except Exception:
+        pass
     # ---- replay counterexamples natively ----
     confirmed = []
     for v in violations[:200]:
